@@ -2,7 +2,10 @@ package main
 
 import (
 	"bytes"
+	"os"
+	"path/filepath"
 
+	"github.com/virus-evolution/gofasta/pkg/fastaio"
 	"github.com/virus-evolution/gofasta/pkg/sam"
 )
 
@@ -12,5 +15,72 @@ func init() {
 		err := sam.ToMultiAlign(bytes.NewReader(b64(c, "sam")), &out, integer(c, "wrap", 0), integer(c, "start", -1),
 			integer(c, "end", -1), boolean(c, "pad"), integer(c, "threads", 1))
 		return out.Bytes(), nil, err
+	}
+}
+
+func init() {
+	// sam toPairAlign into a scratch directory; returns the files of the named queries, in the order given
+	ops["topa"] = func(c Case) ([]byte, map[string]interface{}, error) {
+		dir, err := os.MkdirTemp("", "verif-topa-")
+		if err != nil {
+			return nil, nil, err
+		}
+		defer os.RemoveAll(dir)
+		err = sam.ToPairAlign(bytes.NewReader(b64(c, "sam")), bytes.NewReader(b64(c, "ref")), dir, integer(c, "wrap", 0),
+			integer(c, "start", -1), integer(c, "end", -1), boolean(c, "omit_ref"), boolean(c, "omit_ins"), integer(c, "threads", 1))
+		if err != nil {
+			return nil, nil, err
+		}
+		var out bytes.Buffer
+		names, _ := c["files"].([]interface{})
+		for _, n := range names {
+			name := n.(string)
+			b, e := os.ReadFile(filepath.Join(dir, name))
+			if e != nil {
+				return out.Bytes(), nil, e
+			}
+			out.WriteString("==" + name + "==\n")
+			out.Write(b)
+		}
+		ents, _ := os.ReadDir(dir)
+		return out.Bytes(), map[string]interface{}{"nfiles": len(ents)}, nil
+	}
+}
+
+func init() {
+	ops["samvariants"] = func(c Case) ([]byte, map[string]interface{}, error) {
+		samb, refb, anno := b64(c, "sam"), b64(c, "ref"), b64(c, "anno")
+		refFromFile := boolean(c, "ref_from_file")
+		suffix := str(c, "suffix")
+		extra := map[string]interface{}{}
+		func() {
+			defer func() { recover() }()
+			var ref fastaio.EncodedFastaRecord
+			if refFromFile {
+				refs, e := fastaio.ReadEncodeAlignmentToList(bytes.NewReader(refb), false)
+				if e != nil || len(refs) != 1 {
+					return
+				}
+				ref = refs[0]
+			}
+			rs, inter, ref2, e := annotationRegions(anno, suffix, ref)
+			if e != nil {
+				extra["regions_error"] = e.Error()
+				return
+			}
+			extra["regions"] = regionsJSON(rs)
+			is := []interface{}{}
+			for _, p := range inter {
+				is = append(is, p)
+			}
+			extra["inter"] = is
+			extra["ref"] = encodeB64([]byte(ref2.Decode().Seq))
+			extra["refid"] = ref2.ID
+		}()
+		var out bytes.Buffer
+		err := sam.Variants(bytes.NewReader(samb), bytes.NewReader(refb), refFromFile, bytes.NewReader(anno), suffix, &out,
+			integer(c, "start", -1), integer(c, "end", -1), boolean(c, "aggregate"), float(c, "threshold", 0),
+			boolean(c, "append_snps"), integer(c, "threads", 1))
+		return out.Bytes(), extra, err
 	}
 }
